@@ -527,7 +527,15 @@ const KEY_CODES: [u64; 30] = [
     1114111, 1114112, 4294967295, 4294967296, 4294967297, 18446744073709551615, 57380,
 ];
 const KEY_MODS: [u64; 16] = [0, 1, 2, 3, 5, 9, 256, 257, 511, 512, 513, 1025, 4294967296, 4294967297, 4294967298, 18446744073709551615];
-const MOUSE_CODES: [u64; 22] = [0, 1, 2, 3, 4, 8, 16, 28, 31, 32, 35, 63, 64, 65, 66, 67, 92, 95, 128, 255, 4294967296, 18446744073709551615];
+const MOUSE_CODES: [u64; 28] = [
+    0, 1, 2, 3, 4, 8, 16, 28, 31, 32, 35, 63, 64, 65, 66, 67, 92, 95, 128, 255, 256, 257, 320, 65536, 65600, 4294967296, 4294967361, 18446744073709551615,
+];
+/// DECRPM modes / statuses and OSC ids: the known codes and the same codes + 2^16 / 2^32 (+ 2^64 clamps)
+const DEC_MODES: [u64; 20] = [
+    7, 25, 80, 1000, 1003, 1006, 1049, 2004, 2026, 1, 0, 65543, 65561, 66536, 4294967303, 4294967321, 4294968296, 18446744073709551615, 26, 2027,
+];
+const DEC_STATUS: [u64; 12] = [0, 1, 2, 3, 4, 5, 65536, 65537, 4294967296, 4294967297, 4294967300, 18446744073709551615];
+const OSC_IDS: [u64; 14] = [4, 10, 11, 12, 0, 65540, 65546, 65547, 4294967300, 4294967306, 4294967307, 18446744073709551615, 104, 110];
 const COORDS: [u64; 10] = [0, 1, 2, 80, 255, 256, 65535, 65536, 4294967296, 18446744073709551615];
 const PALETTE: [u64; 20] = [0, 1, 7, 8, 15, 16, 17, 21, 51, 52, 196, 230, 231, 232, 233, 254, 255, 256, 257, 4294967312];
 const CHANNELS: [u64; 10] = [0, 1, 127, 128, 254, 255, 256, 257, 300, 65536];
@@ -552,7 +560,7 @@ fn boundary_piece(rng: &mut Rng, which: u64) -> (Vec<u8>, &'static str) {
             _ => format!("{r}{s}{k}", r = role, s = sep, k = pk(rng, &[0, 1, 2, 3, 5, 6])),
         }
     };
-    let k = if which == 1 { rng.below(3) } else { rng.below(9) };
+    let k = if which == 1 { rng.below(3) } else { rng.below(15) };
     match k {
         0 => (format!("\x1b[{}m", sgr_colour(rng)).into_bytes(), "b.sgrcolour"),
         1 => (format!("\x1b[{};{};{}m", pk(rng, &SGR_CODES), sgr_colour(rng), pk(rng, &SGR_CODES)).into_bytes(), "b.sgrcolour"),
@@ -562,6 +570,20 @@ fn boundary_piece(rng: &mut Rng, which: u64) -> (Vec<u8>, &'static str) {
         5 => (format!("\x1b[<{};{};{}{}", pk(rng, &MOUSE_CODES), pk(rng, &COORDS), pk(rng, &COORDS), if rng.chance(1, 2) { 'M' } else { 'm' }).into_bytes(), "b.mouse"),
         6 => (format!("\x1b[{};{}R", pk(rng, &COORDS), pk(rng, &COORDS)).into_bytes(), "b.cpr"),
         7 => (format!("\x1bP1$r{}m\x1b\\", sgr_colour(rng)).into_bytes(), "b.decrpss"),
+        9 | 10 => (format!("\x1b[?{};{}$y", pk(rng, &DEC_MODES), pk(rng, &DEC_STATUS)).into_bytes(), "b.decmode"),
+        12 | 13 | 14 => {
+            // legacy keys with a modifier parameter (ModifiedKeyMatcher) and their literal neighbours
+            const MASKS: [&str; 16] = ["0", "1", "2", "3", "8", "9", "16", "17", "128", "129", "255", "256", "257", "258", "65537", "99999999999999999999"];
+            const CODES: [&str; 24] = ["0", "1", "2", "3", "4", "5", "6", "7", "8", "9", "10", "11", "15", "16", "17", "21", "22", "23", "24", "25", "65537", "4294967297", "100000000000000000001", ""];
+            let fin = *rng.pick(&[b'A', b'B', b'C', b'D', b'F', b'H', b'P', b'Q', b'S', b'~', b'~', b'~', b'R', b'E']) as char;
+            let code = if fin == '~' || rng.chance(1, 4) { CODES[rng.below(CODES.len() as u64) as usize] } else { "1" };
+            (format!("\x1b[{};{}{}", code, MASKS[rng.below(MASKS.len() as u64) as usize], fin).into_bytes(), "b.modkey")
+        }
+        11 => {
+            let id = pk(rng, &OSC_IDS);
+            let body = rng.pick(&["rgb:ff/00/80", "#ff0080", "1;rgb:1/2/3", "255;#000000", ";rgb:f/f/f"]).to_string();
+            (format!("\x1b]{};{}{}", id, body, if rng.chance(1, 2) { "\x07" } else { "\x1b\\" }).into_bytes(), "b.oscid")
+        }
         _ => {
             const RGB: [&str; 14] = ["", "/", "//", "ff//ff", "ff/ff/", "ff/ff", "f/f/f", "fff/fff/fff", "ffff/0000/8000", "fffff/0/0", "+f/+ff/+fff", "+/0/0", "gg/0/0", "1/22/333/4444"];
             let id = if rng.chance(1, 2) { format!("4;{}", pk(rng, &PALETTE)) } else { rng.pick(&[10u32, 11]).to_string() };
@@ -640,7 +662,22 @@ fn piece(rng: &mut Rng, which: u64) -> (Vec<u8>, &'static str) {
             (v, "osc")
         }
         12 => (format!("\x1bP{}$r{}{}\x1b\\", rng.below(2), d(rng), if rng.chance(2, 3) { "m" } else { "q" }).into_bytes(), "decrpss"),
-        13 => (format!("\x1bP{}+r{}\x1b\\", rng.below(2), match rng.below(4) { 0 => "", 1 => "4142=4344", 2 => "4142;4344", _ => "41=42;43=44" }).into_bytes(), "termcap"),
+        13 => (format!("\x1bP{}+r{}\x1b\\", rng.below(2), match rng.below(14) {
+            0 => "",
+            1 => "4142=4344",
+            2 => "4142;4344",
+            3 => "41=42;43=44",
+            4 => "4",
+            5 => "414",
+            6 => "41=4",
+            7 => "4=41",
+            8 => "41;4",
+            9 => "4g=41",
+            10 => "41=4g;4",
+            11 => "41==42",
+            12 => "aBcD=eF01;0a",
+            _ => "41=42=43;;44",
+        }).into_bytes(), "termcap"),
         14 => (format!("\x1b[8;{};{}t\x1b[4;{};{}t", d(rng), d(rng), d(rng), d(rng)).into_bytes(), "size"),
         15 => {
             let mut v = b"\x1b[200~".to_vec();
@@ -685,6 +722,21 @@ fn trivial_and(rng: &mut Rng, n: usize) -> Vec<Vec<usize>> {
         left -= k;
     }
     parts.push(p);
+    // a second random partition with larger reads, one with an empty read in the middle, one single cut
+    let mut p = vec![];
+    let mut left = n;
+    while left > 0 {
+        let k = (1 + rng.below(17) as usize).min(left);
+        p.push(k);
+        left -= k;
+    }
+    parts.push(p);
+    if n >= 2 {
+        let i = 1 + rng.below(n as u64 - 1) as usize;
+        parts.push(vec![i, 0, n - i]);
+        let j = 1 + rng.below(n as u64 - 1) as usize;
+        parts.push(vec![j, n - j]);
+    }
     parts
 }
 
